@@ -26,7 +26,7 @@ Definition chunk := list ext.                            (* the tracts of one da
 Record pchunk := { pc_leader : nat; pc_exts : chunk; pc_len : N }.   (* packedChunk *)
 
 (* ---------- pack_tracts.go: packTracts ---------- *)
-Definition pad_to : N := c_padToLength.
+Definition pad_to : N := c13_padToLength.
 Definition padded (l : N) : N := ((l + pad_to - 1) / pad_to) * pad_to.
 
 (* the inner loop over chunks: first chunk with room, else a new chunk *)
@@ -241,7 +241,7 @@ Definition read_tract (s : st) (rs : bool) (blank fail : list N) (t : nat) (o w 
   else read_repl tr o w.
 
 (* ---------- client.go: readAt ---------- *)
-Definition TL : N := c_TractLength.
+Definition TL : N := c13_TractLength.
 
 (* getNextRange for every tract of the request: (thisOffset, thisLen) *)
 Fixpoint ranges (fuel : nat) (off len pos : N) : list (N * N) :=
@@ -336,10 +336,11 @@ Definition flat (l : list vec) : list Z := map Nz (concat l).
 Definition find_chunk (s : st) (leader : nat) : option pchunk :=
   find (fun c => Nat.eqb (pc_leader c) leader) (s_chunks s).
 
-Definition tract_place (chs : list pchunk) (t : nat) : list Z :=
+(* for tract t: leader of its chunk if that chunk is accepted (else -1), and its offset *)
+Definition tract_place (chs : list pchunk) (acc : list nat) (t : nat) : list Z :=
   match flat_map (fun c => match find_ext t (pc_exts c) with
                            | Some e => [(pc_leader c, e_off e)] | None => [] end) chs with
-  | (l, o) :: _ => [nz l; Nz o]
+  | (l, o) :: _ => [if memn l acc then nz l else (-1)%Z; Nz o]
   | [] => [(-1)%Z; (-1)%Z]
   end.
 
@@ -356,7 +357,8 @@ Definition step (s : st) (op : list Z) : st * list Z :=
       let n' := Z.to_nat n in let m' := Z.to_nat m in let l := Z.to_nat len in
       if negb (is_class n' m') || negb (Nat.eqb (length bytes) (n' * l)) then (s, bad) else
       let M := class_matrix n' m' in
-      let data := chunks_of n' l (map zN bytes) in
+      let bs := map zN bytes in
+      let data := map (fun i => firstn l (skipn (i * l) bs)) (seq 0 n') in
       match rs_encode n' (n' + m') M (data ++ repeat (repeat 0 l) m') with
       | inr sh => ({| s_n := n'; s_m := m'; s_M := M; s_target := 0; s_tracts := []; s_chunks := []; s_acc := [];
                       s_stripes := []; s_hosts := []; s_blobs := []; s_codec := sh |},
@@ -404,7 +406,7 @@ Definition step (s : st) (op : list Z) : st * list Z :=
       let acc := accepted chs tg sl in
       ({| s_n := n'; s_m := m'; s_M := class_matrix n' m'; s_target := tg; s_tracts := trs; s_chunks := chs;
           s_acc := map pc_leader acc; s_stripes := []; s_hosts := []; s_blobs := []; s_codec := [] |},
-       nz (length trs) :: flat_map (tract_place chs) (seq 0 (length trs))
+       nz (length trs) :: flat_map (tract_place chs (map pc_leader acc)) (seq 0 (length trs))
           ++ nz (length acc) :: map (fun c => nz (pc_leader c)) acc)
   | 11%Z :: cnt :: leaders =>
       let ls := map Z.to_nat leaders in
@@ -470,9 +472,15 @@ Definition step (s : st) (op : list Z) : st * list Z :=
               let blob := nth (Z.to_nat b) (s_blobs s) [] in
               let '(rd1, err1, bytes1) := read_at s false [] [] blob (zN off) (zN len) in
               let '(rd2, err2, bytes2) := read_at s true (map zN blank) (map zN fail) blob (zN off) (zN len) in
-              let code := if negb ((rd1 =? rd2) && (err1 =? err2))
+              (* input class of the request: 1 = in-tract offset 0, 2 = offset > 0 and the range ends inside the
+                 tract, 3 = offset > 0 and the range crosses the tract's end, 4 = zero-length tract *)
+              let o := zN off mod TL in
+              let L := t_len (nth (nth (N.to_nat (zN off / TL)) blob O) (s_tracts s) dummy_tract) in
+              let cls := if L =? 0 then 4 else if o =? 0 then 1 else if o + zN len <=? L then 2 else 3 in
+              let kind := if negb ((rd1 =? rd2) && (err1 =? err2))
                           then (if err2 =? 2 then 4 else 2)
                           else if vec_eqb bytes1 bytes2 then 1 else 3 in
+              let code := if kind =? 1 then 1 else 10 * cls + kind in
               (s, [777%Z; Nz code])
           | _ => (s, bad)
           end
